@@ -774,6 +774,10 @@ func Run(p *progen.Program, sched Schedule, opts Options) (res *Result) {
 	return res
 }
 
+func jobWriteNoJournal(h *core.VerifHarness, j *core.VerifJob, name, msg string) {
+	h.JobWriteRaw(j, name, []byte(msg), false)
+}
+
 // applyBody runs the stage function and writes its results; fault selects a
 // failure manifestation.  Returns how the job terminates.
 func applyBody(p *progen.Program, h *core.VerifHarness, j *core.VerifJob,
@@ -787,6 +791,12 @@ func applyBody(p *progen.Program, h *core.VerifHarness, j *core.VerifJob,
 		// process died without a trace; the local job manager writes _errors
 		return "jm-errors", "signal: killed"
 	case "exit1":
+		return "jm-errors", "exit status 1"
+	case "errors-nojournal":
+		// the monitor recorded the failure in _errors and died (non-zero exit)
+		// before it could write the journal entry; the local job manager sees
+		// the failed process and leaves the existing _errors alone
+		jobWriteNoJournal(h, j, "errors", "verif: stage failed; the monitor died before the journal entry")
 		return "jm-errors", "exit status 1"
 	}
 	r, err := progen.Exec(p, io)
@@ -806,6 +816,8 @@ func applyBody(p *progen.Program, h *core.VerifHarness, j *core.VerifJob,
 			return "complete", ""
 		case "trunc-outs":
 			b = b[:len(b)/2]
+		case "null-outs":
+			b = []byte("null")
 		case "bad-stage-defs":
 			b = []byte(`{"chunks": 5}`)
 		case "no-chunks-key":
@@ -850,6 +862,9 @@ func applyBody(p *progen.Program, h *core.VerifHarness, j *core.VerifJob,
 		return "complete", ""
 	case "trunc-outs":
 		b = b[:len(b)/2]
+	case "null-outs":
+		// the JSON value null instead of an object
+		b = []byte("null")
 	case "missing-key":
 		if len(keys) > 0 {
 			delete(full.O, keys[0])
